@@ -36,8 +36,12 @@ def gen_cases(rng, tier):
                     st['format'] = rng.pick(['csv', 'json', 'excel', 'xlsx'] if n <= 1000 else ['csv', 'json'])
                 steps.append(st)
             cases.append({'kind': 'lookahead', 'n': n, 'steps': steps, 'sparse': rng.pick([None, None, 'leading', 'always'])})
+            if rng.chance(0.3):
+                cases[-1]['sized'] = True       # the source knows its length (has __len__) and still yields its rows on demand
     for fmt in ('csv', 'json', 'excel'):
         cases.append({'kind': 'lookahead', 'n': 600, 'steps': [{'t': 'dump', 'format': fmt}], 'sparse': None})
+    for n in (250, 1000):
+        cases.append({'kind': 'lookahead', 'n': n, 'steps': [{'t': 'probe_row'}], 'sparse': None, 'sized': True})
     # a flow consumed by another flow through load((descriptor, resources)): the boundary must stay lazy
     for n in ([600] if tier != 'thorough' else [600, 20000]):
         for cast in (None, 'schema'):
@@ -96,7 +100,7 @@ def run_impl(case):
         return run_limit(case)
     if case['kind'] == 'boundary':
         return run_boundary(case)
-    out = run_pipeline(case['n'], case['steps'], os.path.join(scratch(), 'c6_%s' % digest(case)), sparse=case.get('sparse'))
+    out = run_pipeline(case['n'], case['steps'], os.path.join(scratch(), 'c6_%s' % digest(case)), sparse=case.get('sparse'), sized=case.get('sized', False))
     pulled, la = 0, []
     for e in out['events']:
         if e[0] == 'pull':
